@@ -433,3 +433,6 @@ pub mod time {
         }
     }
 }
+
+pub mod anet;
+pub mod net;
